@@ -148,6 +148,10 @@ func sweepChunk(op string, dt ref.DT, bits []uint64, st *sweepStat, tolUlps int)
 			if !ulpOK(dt, got, exp, tolUlps, num) {
 				fail(i, fmt.Sprintf("%s(%g) = %g, expected %g", op, x, got, exp))
 			}
+			// Abs clears the sign bit also of zero (fabs): |−0| is +0, bit for bit
+			if op == "Abs" && x == 0 && math.Signbit(got) {
+				fail(i, fmt.Sprintf("Abs(%g) = -0 (the sign bit is not cleared)", x))
+			}
 		}
 	}
 	st.mu.Lock()
@@ -179,7 +183,7 @@ func checkC10(c *hx.Checker) {
 		"; results grouped into 21 value classes (nan, +-inf, +-0, +-subnormal, +-tiny..+-huge), one case per (operator,dtype,class) replayed on the smallest failing input; " +
 		"shape preservation: Box(rank 0..4, extents {1,2,3}) per operator (Operator API) and rank<=2 sub-box through Model.Run; PRelu: all (x,slope) shape pairs of Box(0..3) x gate dtypes x special values; Abs on all gate dtypes incl. integer minimum; Not on bool. " +
 		"non-trivial = case that evaluated at least one element / one broadcast"
-	c.Assumptions = []string{"reference = Go math library on the exactly widened input, rounded to the element type; tolerance 4 ulp (Go's math functions are within 1 ulp); Relu/Abs compare -0 == +0",
+	c.Assumptions = []string{"reference = Go math library on the exactly widened input, rounded to the element type; tolerance 4 ulp (Go's math functions are within 1 ulp); Relu compares -0 == +0; Abs must clear the sign of -0",
 		"Sigmoid/Tanh are computed by gorgonia in the element type as 1/(1+exp(-x)): bound 256 ulp (condition number of exp is |x| <= 104 down to subnormal results; the full sweep measured 97 ulp), absolute floor at the smallest normal"}
 	// ---------------- value sweeps
 	type sweepKey struct {
